@@ -141,7 +141,7 @@ def run_refine(items, w=2, monitors=True, max_level=6000, max_alloc=256, timeout
             v = p[4]
             obs = p[11]
             dec = lambda o: (export.decode_events(o['ev']), o['end'])
-            it.result = {'status': p[5], 'pc': p[6], 'level': p[7], 'hst': p[8], 'agree': p[9], 'wrap': p[10],
+            it.result = {'status': p[5], 'pc': p[6], 'level': p[7], 'hst': p[8], 'cls': p[9], 'agree': p[9] in ('agree', 'inconclusive'), 'wrap': p[10],
                          'halted': v['halted'], 'fault': v['fault'], 'alarm': v['alarm'],
                          'mobs': dec(obs[0]), 'hobs': dec(obs[1]) if len(obs) > 1 else None}
         return r
